@@ -48,6 +48,7 @@ ConnectEvF(st, c) ==
                !.ev.sets = IF Impl.seedEvNoExclude THEN @
                            ELSE [i \in 1..Len(@) |-> [@[i] EXCEPT !.excl = @ \cup {c}]]]   \* late joiner: excluded
 DisconnectEvF(st, c) == [st EXCEPT !.ev.net[c] = EvNetInit]
+StopEvF(st) == [st EXCEPT !.ev.net = [c \in Client |-> EvNetInit]]
 
 \* AuthMethod::Custom: the game authorizes by inserting AuthorizedClient
 AuthorizeF(st, c) ==
@@ -78,6 +79,7 @@ SendEv(net, cs, m) == [c \in Client |-> IF c \in cs THEN [net[c] EXCEPT !.sev[m.
 \* returns [st, delivered]: delivered = what server-side game logic observes in this frame
 SrvFrameEv(st, stPreFrame, ran) ==
     LET running == stPreFrame.srv.running
+        justStopped == stPreFrame.srv.wasRunning /\ ~running
         \* PreUpdate: FromClient<E> for every received client event, with the true sender
         rxd == Concat([i \in 1..Len(CEvTypes) |->
                   Concat([j \in 1..Len(SetToSeqC) |->
@@ -101,7 +103,7 @@ SrvFrameEv(st, stPreFrame, ran) ==
                                         ELSE n[c]],
                     net, set.evs)
         net2 == IF ran THEN FoldSeq(flushSet, net1, sets1) ELSE net1
-        sets2 == IF ran THEN <<>> ELSE sets1
+        sets2 == IF ran \/ justStopped THEN <<>> ELSE sets1
     IN [st |-> [st EXCEPT !.ev.net = net2, !.ev.sets = sets2, !.ev.spend = <<>>],
         delivered |-> IF running THEN rxd ELSE <<>>]
 
